@@ -42,11 +42,30 @@ def log_listener(algorithm, tag):
     LOG.append(('listener', tag, _counter(algorithm)))
 
 
-def m_flaky_key(results, psi, model, simulation, every=2, results_key='c18_sometimes'):
-    """writes its key only at every `every`-th measurement: exercises the fill-up with None"""
+def m_flaky_key(results, psi, model, simulation, every=2, offset=0, results_key='c18_sometimes'):
+    """writes its key only at every `every`-th measurement (starting with number `offset`): exercises the
+    fill-up with None for keys that appear late and for keys that are missing"""
     n = len(simulation.results.get('measurements', {}).get('measurement_index', []))
-    if n % every == 0:
+    if n % every == offset % every:
         results[results_key] = float(n)
+
+
+def m_returns(results, psi, model, simulation):
+    """a measurement function that (wrongly) returns its value: collected under 'UNKNOWN'"""
+    return float(len(simulation.results.get('measurements', {}).get('measurement_index', [])))
+
+
+def m_trunc_err(results, psi, model, simulation, results_key='c18_terr'):
+    """stores the TruncationError object itself (converted to `_eps` / `_ov` arrays when saving)"""
+    results[results_key] = simulation.engine.trunc_err
+
+
+def pp_none(DL):
+    return None
+
+
+def pp_raises(DL):
+    raise ValueError('c18: deliberately failing post-processing step')
 
 
 def m_raises(results, psi, model, simulation, at=(1,)):
